@@ -154,12 +154,36 @@ theorem C19_page_any_bad_field (kw : PageField → Option Raw) (f : PageField) (
     simp [pageSuppliedOk, hk, hbad] at this
   simp [constructPage, this]
 
+/-- an illegal page configuration — a supplied field outside its rule, or a table width that resolves to a
+non-positive value — is refused with a `ValueError` (`ValidationError` for the field rules, a plain `ValueError`
+for the resolved width) -/
 theorem C19_page_rejects (kw : PageField → Option Raw) (h : specPage kw = .reject) :
-    constructPage kw = .error .validationError := by
+    ∃ e, constructPage kw = .error e ∧ e.isValueError = true := by
   rcases specPage_cases kw with h1 | ⟨_, h2⟩ | ⟨h3, _⟩
   · rw [h1] at h; cases h
   · rw [h2] at h; cases h
   · exact h3
+
+/-- "a non-positive … col_width" also when the width is DERIVED: a page whose fields all pass their rules but
+whose table width (`col_width`, or page width − 2.25 / 2.5 when none is given) is not positive is refused with a
+plain `ValueError`; no RTFPage object exists for it. -/
+theorem C19_page_resolved_col_width (kw : PageField → Option Raw)
+    (hf : pageFields.all (pageSuppliedOk kw) = true) (hw : ¬ 0 < resolvedColWidth kw) :
+    constructPage kw = .error .valueError := by
+  simp [constructPage, hf, hw]
+
+/-- in particular a portrait page of width `w ≤ 2.25` (landscape: `w ≤ 2.5`) without an explicit `col_width` -/
+theorem C19_page_too_narrow (kw : PageField → Option Raw) (w : Rat)
+    (hf : pageFields.all (pageSuppliedOk kw) = true)
+    (hcw : kw .colWidth = none) (hwd : kw .width = some (.scalar (.rat w)))
+    (hnarrow : w ≤ (if pageLandscape kw then 5 / 2 else 9 / 4)) :
+    constructPage kw = .error .valueError := by
+  apply C19_page_resolved_col_width kw hf
+  simp only [resolvedColWidth, pageNum, hcw, hwd, coerce, Option.getD]
+  intro h
+  have : (if pageLandscape kw then (5 : Rat) / 2 else 9 / 4) < w := by
+    have := h; grind
+  exact absurd hnarrow (by grind)
 
 theorem C19_page_accepts (kw : PageField → Option Raw) (h : specPage kw = .accept) :
     constructPage kw = .ok () := by
@@ -357,6 +381,32 @@ example : specDoc { df := .single ["a", "b"], body := .single { groupBy := some 
     specDoc { df := .multi [["a"], ["b"]], body := .multi [{}, { pageBy := some ["b"] }],
               header := .nested 2 } = .accept := by decide +kernel
 
+/-- a `group_by` column that `subline_by` (always), or `page_by` shown as spanning rows (i.e. unless
+`new_page=True` keeps it as a column), takes out of the displayed table is refused when the document is built
+(since the repair of D43: before, `rtf_encode()` raised for it) — whatever the frame and the other options. -/
+theorem C19_group_by_removed_column (cols : List String) (b : BodySpec) (name : String)
+    (hg : name ∈ b.groupBy.getD [])
+    (hr : name ∈ b.sublineBy.getD [] ∨
+          (¬ (b.newPage = true ∧ b.pagebyColumn = true) ∧ name ∈ b.pageBy.getD [])) :
+    sectionLegal cols b = false ∧ sectionOk cols b = false := by
+  have hk : groupKept b = false := by
+    simp only [groupKept, BodySpec.removed]
+    apply Bool.eq_false_iff.mpr
+    intro h
+    have := List.all_eq_true.mp h name hg
+    rcases hr with hr | ⟨hn, hr⟩
+    · simp [hr] at this
+    · cases h1 : b.newPage <;> cases h2 : b.pagebyColumn <;> simp_all
+  have : sectionOk cols b = false := by simp [sectionOk, hk]
+  exact ⟨(sectionLegal_eq cols b).trans this, this⟩
+
+/-- `RTFBody(group_by=["a"], page_by=["a"])` is refused, the same with `new_page=True` (column kept) is accepted -/
+example : validateDoc { df := .single ["a", "b"], body := .single { groupBy := some ["a"], pageBy := some ["a"] } }
+      = .error .validationError ∧
+    validateDoc { df := .single ["a", "b"],
+                  body := .single { groupBy := some ["a"], pageBy := some ["a"], newPage := true } } = .ok () := by
+  decide +kernel
+
 /-- the same on real frames: a zero-row frame with a missing `page_by` column (bad name last), a zero-column
 frame, the empty second section of a list — refused; a zero-row frame with existing columns — accepted -/
 example : specDocData (.single { cols := ["a", "b"], nrows := 0 }) { body := .single { pageBy := some ["a", "z"] } }
@@ -367,6 +417,14 @@ example : specDocData (.single { cols := ["a", "b"], nrows := 0 }) { body := .si
     missingName ["b"] { sublineBy := some ["z"] } "z" = true ∧
     specDocData (.single { cols := ["a", "b"], nrows := 0 }) { body := .single { pageBy := some ["a"] } }
       = .accept := by decide +kernel
+
+/-- `RTFPage(width=2.25)`: every field passes its rule, the derived table width is 0 → refused; `width=2.3` accepted -/
+example : constructPage (fun f => match f with
+      | .width => some (.scalar (.rat (9 / 4)))
+      | _ => none) = .error .valueError ∧
+    constructPage (fun f => match f with
+      | .width => some (.scalar (.rat (23 / 10)))
+      | _ => none) = .ok () := by decide +kernel
 
 /-- page and figure rules fire on concrete calls -/
 example : specPage (fun f => match f with
